@@ -291,6 +291,12 @@ def run(chk: Check):
                 'objects, out-of-range and malformed indices); a history is distinct by its configuration and token list; '
                 'every history is non-trivial (at least one constructor and, for the core, 2-4 further operations); list '
                 'indices WITH REPEATS whose rows add up to the rows of the whole sequence are part of both alphabets; '
+                'operators with an ArraySequence operand (in place and out of place: independent objects, the same '
+                'object, shifted slices p[1:] / p[:-1], parent vs reversed / permuted view, one-row broadcasting, '
+                'refusals) and, for the integer configurations, the bitwise operators | & ^ << >> in place followed by '
+                'assignments through the same name, form a further exhaustive family and are part of the random '
+                'alphabet; an in-place operator must return the object it was applied to and must not change which '
+                'objects share its buffer; '
                 'Tractogram layer (direct predicate only): source x {t + Tractogram(), t + t[0:0], t + t[[]], t + other, '
                 't + t, t.copy(), t[slice/list/mask], sums of views, t[0:0] + t} x {no growth, += empty / empty slice / '
                 'non-empty, growth of the source} x {element / slice assignment, in-place arithmetic on streamlines and '
@@ -303,7 +309,7 @@ def run(chk: Check):
         'ndarray.resize does; with refcheck=False it would dangle)',
         'row payloads are integers that every dtype in use represents exactly (<= 4 multiplications per history); '
         'boolean results of comparisons are only read, sliced, copied or combined out of place',
-        'tuple indices (slicing of the trailing dims), sequence-valued operands of arithmetic, concatenate(axis != 0), '
+        'tuple indices (slicing of the trailing dims), concatenate(axis != 0), '
         'save/load and a direct call of shrink_data() on a view are outside the generated alphabet',
         'extend(list) / a second cached build while a cached build is pending is API misuse and not generated',
     ]
@@ -376,7 +382,10 @@ UNPROVED = [
     'object as a list function of the old contents and (b) the value of every element of every other object',
     'C15_view_write_through at full strength is false of the faithful model (C15_view_write_through_refuted, S-C15d); '
     'proved: _partial (exactly the same-cell elements change, i.e. while the two objects share the buffer)',
-    'not modelled, hence no theorem: operators with a sequence operand (seq + seq), tuple indices, concatenate(axis != 0), '
+    'operators with an ArraySequence operand (OOpSeq: in place element after element reading the current rows of '
+    'the operand, out of place, NumPy one-row broadcasting, _check_shape refusals) are modelled and tied by the '
+    'correspondence; proved for them: preservation of the invariant only (no value theorem)',
+    'not modelled, hence no theorem: tuple indices, concatenate(axis != 0), '
     'save/load, the ValueError of append on a trailing-shape mismatch (which detaches a view before raising), '
     'shrink_data() called directly on a view',
 ]
